@@ -71,5 +71,15 @@ pub fn run(ctx: &Ctx) -> i32 {
         }
         bad += rep.violations.len();
     }
+    // (4) concurrent claims of one nostr group id
+    {
+        let s = MdkMemoryStorage::default();
+        let rep = run_claims(&s, &u, 3, 5, seed);
+        println!("MIRI claims ops={} violations={}", rep.histories_ops, rep.violations.len());
+        for v in rep.violations.iter().take(5) {
+            println!("MIRI-VIOLATION {} :: {}", v.0, v.1);
+        }
+        bad += rep.violations.len();
+    }
     if bad > 0 { 1 } else { 0 }
 }
